@@ -1477,3 +1477,26 @@ M("C09", "annotator-name-length-in-array", DIS,
 B("C09", "algebraically-equal-positional", DIS,
   "            return dist * dist * delta_empty\n        return d_mat", "            return delta_empty * dist ** 2\n        return d_mat")
 VARIANTS[:] = [v for v in VARIANTS if v is not None]
+
+# pair kernel restructured: count the empty slots, charge them with a closed form (seeded/C03-*)
+_PAIR_OLD = """            for i in range(nb_annotators):
+                for j in range(i):
+                    if unitary_alignment[i, 3] == -1 or unitary_alignment[j, 3] == -1:
+                        res[unitary_alignment_i] += delta_empty
+                    else:
+                        res[unitary_alignment_i] += d_mat(unitary_alignment[i], unitary_alignment[j])
+"""
+_PAIR_COUNT = """            nb_empty = 0
+            for i in range(nb_annotators):
+                if unitary_alignment[i, 3] == -1:
+                    nb_empty += 1
+                    continue
+                for j in range(i):
+                    if unitary_alignment[j, 3] != -1:
+                        res[unitary_alignment_i] += d_mat(unitary_alignment[i], unitary_alignment[j])
+            res[unitary_alignment_i] += %s
+"""
+B("C03", "kernel-counts-empties-correct-closed-form", DIS, _PAIR_OLD,
+  _PAIR_COUNT % "(nb_empty * (nb_annotators - nb_empty) + nb_empty * (nb_empty - 1) / 2) * delta_empty")
+M("C03", "kernel-counts-empties-drops-empty-empty-pairs", DIS, _PAIR_OLD,
+  _PAIR_COUNT % "nb_empty * (nb_annotators - nb_empty) * delta_empty", "R-C03-1")
